@@ -22,6 +22,7 @@ from pvc.core import Sym
 
 MODULES = common.RR_MODULES + common.UR_MODULES
 PROPERTY = 'C07'
+LEAN_LEMMAS = ['equivariant_comp', 'equivariant_iterate']        # /verif/lean/Ghost.lean, checked in the thorough tier
 FUNCTIONS = ['dassh.region_rodded:RoddedRegion.calculate (with _calc_coolant_int_temp, _calc_duct_temp, _calc_coolant_byp_temp, '
              '_calc_int_sc_power and the index tables of Subchannel / PinLattice they read)',
              'dassh.region_unrodded:MultiNodeHomogeneous.calculate',
